@@ -75,8 +75,9 @@ PZ = Pose('PZ', ((1, 0, 0), (0, 1, 0), (0, 0, 1)), 1, (0, 0, -2))
 P1 = Pose('P1', ((1, 2, 2), (2, 1, -2), (2, -2, 1)), F(1, 2), _T)       # 3/2 x isometry
 P2 = Pose('P2', ((2, 3, 6), (3, -6, 2), (6, 2, -3)), F(1, 4), _T)       # 7/4 x isometry
 P3 = Pose('P3', ((1, 1, 0), (1, 0, 1), (-1, 1, 1)), 1, _T)              # oblique lattice map
-# the xy-plane goes to an upright plane whose horizontal direction is (9,7)/4: direction ratios such as 7/9 do not
-# multiply back exactly in floating point (fl(fl(7/9)*9) != 7), which exposes eliminations without proper pivoting
+# the xy-plane goes to an upright plane whose horizontal direction is (9,7)/4: the ratio 9/7 does not multiply back
+# exactly in floating point (fl(fl(9/7)*7*m/4) != 9*m/4 for m = 3, 6, 7), which exposes eliminations that divide by
+# rounding noise when y is the pivot (7/9 does multiply back exactly: see P5 for the x-pivot case)
 P4 = Pose('P4', ((9, 0, 7), (7, 0, -9), (0, 4, 0)), F(1, 4), (F(-1, 4), F(-5, 2), F(-9, 4)))
 # same idea with horizontal direction (11,15)/4: fl(fl(15/11)*11*m/4) != 15*m/4 already for m = 1, 2, 4, so the
 # noise appears for the shortest lattice directions
